@@ -1260,6 +1260,53 @@ def rule_r25(prog, res):
     res.floor('R25', 'ISO writer overrides in Soap11.__init__', n, 3)
 
 
+# ------------------------------------------------------------------ R26
+def rule_r26(prog, res):
+    res.rule('R26', 'the chunk joiner of the binary writers treats a bytes '
+             'value as one chunk: in the Python 3 _bytes_join every use of '
+             'the elements of val (index, join, iteration) stands under "val '
+             'is not bytes" - an element of a bytes object is an int')
+    m = prog.module('spyne.util')
+    defs = [d for d in ast.walk(m.tree) if isinstance(d, ast.FunctionDef) and
+            d.name == '_bytes_join']
+    n = 0
+    for d in defs:
+        outer = flatten_guards(guards_at(d))
+        if any(pol and unparse(e).endswith('PY2') for e, pol in outer):
+            continue            # the Python 2 twin: str chunks, str value
+        if not d.args.args:
+            continue
+        v = d.args.args[0].arg
+        uses = []
+        for x in walk_no_defs(d):
+            if isinstance(x, ast.Subscript) and unparse(x.value) == v:
+                uses.append(x)
+            elif isinstance(x, ast.Call) and call_name(x) == 'join' and any(
+                    unparse(a) == v for a in x.args):
+                uses.append(x)
+            elif isinstance(x, (ast.For, ast.comprehension)) and unparse(
+                    x.iter) == v:
+                uses.append(x)
+        for u in uses:
+            n += 1
+            g = flatten_guards(guards_at(u, stop=d))
+            ok = any((not pol) and isinstance(e, ast.Call) and call_name(e)
+                     == 'isinstance' and unparse(e.args[0]) == v and (
+                         'binary_type' in unparse(e.args[1]) or 'bytes' in
+                         unparse(e.args[1])) for e, pol in g)
+            where = '%s:%d' % (m.relpath, getattr(u, 'lineno', d.lineno))
+            res.ob('R26', where, '_bytes_join: %s only for a sequence of '
+                   'chunks' % unparse(u)[:50], 'ok' if ok else 'VIOLATED')
+            if not ok:
+                res.finding('R26', '_bytes_join|element-of-bytes|%s' %
+                            type(u).__name__, where, '%s is reached for a '
+                            'bytes value too: its elements are ints, so a '
+                            'ByteArray given as plain bytes has no hex / '
+                            'base64 text form for some lengths' %
+                            unparse(u)[:60])
+    res.floor('R26', 'element uses in _bytes_join (py3)', n, 1)
+
+
 def run(prog, res, tier):
     res.run_rule(rule_r1, prog, res)
     res.run_rule(rule_r2_r7, prog, res, tier)
@@ -1285,6 +1332,7 @@ def run(prog, res, tier):
     res.run_rule(rule_r23, prog, res)
     res.run_rule(rule_r24, prog, res)
     res.run_rule(rule_r25, prog, res)
+    res.run_rule(rule_r26, prog, res)
 
 
 _I = 'spyne/protocol/_inbase.py'
@@ -1293,6 +1341,12 @@ _B = 'spyne/model/binary.py'
 _S = 'spyne/protocol/soap/soap11.py'
 
 MUTANTS = [
+    Mutant('bytes-join-single-chunk-shortcut', 'R26', 'fire',
+           'spyne/util/__init__.py',
+           in_func(None, "    def _bytes_join(val, joiner=b''):\n",
+                   "    def _bytes_join(val, joiner=b''):\n        if len(val)"
+                   " == 1:\n            return val[0]\n"),
+           'element-of-bytes'),
     Mutant('decimal-length-cap-exclusive', 'R24', 'fire',
            'spyne/protocol/_inbase.py',
            in_func('InProtocolBase.decimal_from_unicode',
